@@ -116,10 +116,13 @@ func Corpus() *Program {
 	msg("EmbV", nil,
 		fld("EvStr", 1, KString), fld("EvNum", 2, KInt64), fld("EvLeaf", 3, KMessage, ref("Leaf")),
 		fld("EvTags", 4, KString, list()))
+	msg("EmbIn", nil, fld("EiA", 1, KString), fld("EiB", 2, KInt64), fld("EiHidden", 3, KString))
 	msg("EmbP", nil,
 		fld("EpStr", 1, KString), fld("EpNum", 2, KInt32), fld("EpFlag", 3, KBool),
 		fld("EpHidden", 4, KString), // excluded: a field of a nullable embedded message the schema does not describe
-		fld("EpTime", 5, KTime), fld("EpDur", 6, KDuration), fld("EpTimeV", 7, KTime, nonNull()), fld("EpBytes", 8, KBytes))
+		fld("EpTime", 5, KTime), fld("EpDur", 6, KDuration), fld("EpTimeV", 7, KTime, nonNull()), fld("EpBytes", 8, KBytes),
+		// a by-value embedded message inside the nullable embedded one (its fields are promoted twice)
+		fld("EmbIn", 9, KMessage, ref("EmbIn"), embed(), nonNull()))
 	// embedded messages inside list elements and map values; three levels of nesting
 	msg("WithEmbed", nil,
 		fld("WeStr", 1, KString),
@@ -186,7 +189,11 @@ func Corpus() *Program {
 
 	// attribute names that coincide with names the generated code uses internally (map entry fields,
 	// the placeholder, container members), next to maps and lists of messages
+	msg("CollideS", nil,
+		fld("value", 1, KString), fld("tags", 2, KString, mapOf()), fld("key", 3, KInt64), fld("counts", 4, KInt64, mapOf()),
+		fld("elems", 5, KString, list()))
 	msg("Collide", nil,
+		fld("scalars", 10, KMessage, ref("CollideS")), fld("scalar_list", 11, KMessage, ref("CollideS"), list()),
 		fld("entries", 1, KMessage, ref("Mid"), mapOf()),
 		fld("value", 2, KMessage, ref("Mid")),
 		fld("key", 3, KString),
@@ -231,7 +238,7 @@ func Corpus() *Program {
 		DurationCustomType: DurationCastName,
 		TimeType:           SimTimeType,
 		DurationType:       SimDurationType,
-		ExcludeFields: []string{"Naming.Secret", "Naming.SecretList", "NamedLeaf.Hidden", "Naming.Other.Skip", "EmbP.EpHidden", "Nesting.PtrList.Attrs", "DeepNest.Out.ByKey.LeafMap",
+		ExcludeFields: []string{"Naming.Secret", "Naming.SecretList", "NamedLeaf.Hidden", "Naming.Other.Skip", "EmbP.EpHidden", "EmbIn.EiHidden", "Nesting.PtrList.Attrs", "DeepNest.Out.ByKey.LeafMap",
 			"Oneofs.ChC", "WithOneof.VarI", "Interleave.CInline"}, // branches of oneof groups that keep other branches in the schema,
 		ComputedFields:              []string{"Scalars.FString", "Sink.Count", "Leaf.Num", "Sink.Spec.Name", "Oneofs.ChI", "Oneofs.pick_l", "Mid.ChoiceB", "Empties.PickE",
 			"Interleave.BGroup", "Interleave.DHost", "EmbO.EwA", "EmbO.EwB", "Oneofs.pick_s"}, // incl. every branch of three oneof groups
